@@ -117,7 +117,22 @@ impl Prop for C01 {
     }
 
     fn check(case: &FwCase, obs: &mut Obs) -> Result<(), Failure> {
-        let machines = match build_machines(&case.machines) {
+        // a candidate that declares an empty transition list can only come out of the decoder:
+        // it is built from its encoding (State::new would drop the empty list)
+        let via_decoder = case.machines.iter().any(|m| m.states.iter().any(|st| st.trans.iter().any(|(_, l)| l.is_empty())));
+        let built = if via_decoder {
+            use std::str::FromStr;
+            obs.hit("candidate_built_through_the_decoder");
+            case.machines
+                .iter()
+                .map(|m| {
+                    maybenot::Machine::from_str(&crate::mirror::v2_string(&crate::mirror::bincode_of(&crate::mirror::mmachine(m)))).map_err(|e| e.to_string())
+                })
+                .collect::<Result<Vec<_>, String>>()
+        } else {
+            build_machines(&case.machines)
+        };
+        let machines = match built {
             Ok(m) => m,
             Err(_) => {
                 // only the 'candidates' profile proposes machines that validation may reject
@@ -233,6 +248,7 @@ impl Prop for C01 {
     fn required_classes() -> Vec<&'static str> {
         vec![
             "more_than_64_machines",
+            "candidate_built_through_the_decoder",
             "c_api_history",
             "returned_action",
             "unknown_id",
